@@ -12,4 +12,7 @@ cd coq
 files=$(find theories gen -name '*.v' | sort)
 coq_makefile -Q theories AV -Q gen AVGen $files -o Makefile >/dev/null 2>&1
 rm -f .files.stamp
-timeout 3000 make -j16
+# keep going: a file that does not compile must only fail the checks whose cone contains it
+# (each check rebuilds its own cone and reports a broken proof obligation itself)
+timeout 3000 make -k -j16 || echo "setup: some files did not build (see above); the affected checks will report it"
+test -f theories/Base/Prelude.vo
